@@ -24,6 +24,7 @@ type Rec struct {
 	CRecv     []string
 	CErr      error // terminal error of the receive side (io.EOF = clean end); for unary: Invoke's error
 	CDone     bool  // the client program ran to its end
+	Runaway   bool  // RecvMsg returned nil thousands of times: it reports success without data
 	COpenErr  error
 	CHeader   metadata.MD
 	CHeaderOK bool
@@ -298,7 +299,12 @@ func CRecvOne(r *Rec, cs grpc.ClientStream) error {
 }
 
 func CRecvAll(r *Rec, cs grpc.ClientStream) {
-	for CRecvOne(r, cs) == nil {
+	for i := 0; CRecvOne(r, cs) == nil; i++ {
+		if i > 2000 {
+			// RecvMsg keeps reporting success: no peer in any scenario sends this much
+			r.Runaway = true
+			return
+		}
 	}
 }
 
